@@ -6,18 +6,17 @@ func MapArray(env *Zlisp, fun *SexpFunction, arr *SexpArray) (Sexp, error) {
 	result := make([]Sexp, len(arr.Val))
 	var err error
 
-	var firstTyp *RegisteredType
+	// the result is typed like any other array, by its elements
+	// (SexpArray.Type); giving it the type of its first element made
+	// an array of int64 pass for an int64.
 	for i := range arr.Val {
 		result[i], err = env.Apply(fun, arr.Val[i:i+1])
 		if err != nil {
-			return &SexpArray{Val: result, Typ: firstTyp, Env: env}, err
-		}
-		if firstTyp == nil {
-			firstTyp = result[i].Type()
+			return &SexpArray{Val: result, Env: env}, err
 		}
 	}
 
-	return &SexpArray{Val: result, Typ: firstTyp, Env: env}, nil
+	return &SexpArray{Val: result, Env: env}, nil
 }
 
 // appendNoAlias returns arr's elements followed by extra, for a new array.
